@@ -6,6 +6,10 @@ props = [json.loads(l) for l in open(os.path.join(V, 'properties.jsonl'))]
 
 # id -> (level, engine, technique, level text, level note, design_ref)
 CHECKS = {
+ 'C10': ('model_checking', 'E2-seq', 'exhaustive product of repository histories (bundles x labels x interrupted-upload placement) x squash options through the real RepoSquash in a fake-clock bubble, specification oracle',
+         'Every history of 0..4 (quick 3) committed bundles x every assignment of {none, tag, semver tag, both} per bundle x an interrupted upload with 1 or 2 index files at every position x retain-N 1..3 (quick 2) x each retain-tags option: kept set, removed metadata, labels and full downloads of kept bundles are compared with the specification.',
+         'Interrupted uploads are injected as the exact keys a crashed upload leaves (crash points themselves are enumerated by C06); 40-bundle shapes are not run.',
+         'DESIGN.md §3 C10'),
  'C08': ('model_checking', 'E2-seq', 'explicit-state BFS over label set/delete histories on the real code (fresh cloned stores per state) to the fixed point, map reference model, journal monitor; exhaustive short-name acceptance',
          'All 729 label maps over 2 repos (prefix-related names) x 3 labels x {absent,B1,B2} are reached and every one of the 13122 transitions is executed; after each step every get and every listing (3 prefixes x 4 page sizes) is compared with the model and the write journal must show exactly one key written; every name of length <=2 over a 9-character hostile alphabet is tried for acceptance.',
          'Two bundles per repo; label names of the BFS are fixed (x, x-y, v1.0.0).',
